@@ -75,11 +75,12 @@ func Main(args []string) error {
 	samples := []any{}
 
 	type cfgSel struct {
-		mode       string
-		snr        int
-		ast        int64
-		tsbd       int
-		atoKind    int // 0 none, 1 quarter segment, 2 segment minus 40 ms, 3 1.5 segments, 4 inf
+		mode    string
+		snr     int
+		ast     int64
+		tsbd    int
+		atoKind int // 0 none, 1 quarter segment, 2 segment minus 40 ms, 3 1.5 segments, 4 inf
+		initS   int // init_<s>: the init segment is offered s seconds before the start (0 = option not given)
 	}
 	var cfgs []cfgSel
 	modes := []string{"number", "time", "tlnr"}
@@ -90,7 +91,7 @@ func Main(args []string) error {
 					for ti, tsbd := range []int{0, 1, -1, 172800} {
 						for ak := 0; ak < 5; ak++ {
 							if (ti+ak+snr)%2 == 0 || mode == "time" { // half of the product for the Number modes
-								cfgs = append(cfgs, cfgSel{mode, snr, ast, tsbd, ak})
+								cfgs = append(cfgs, cfgSel{mode, snr, ast, tsbd, ak, 0})
 							}
 						}
 					}
@@ -100,21 +101,34 @@ func Main(args []string) error {
 	} else {
 		// a covering subset + seeded extras
 		for i, mode := range modes {
-			cfgs = append(cfgs, cfgSel{mode, -1, 0, -1, 0}, cfgSel{mode, 1, 1000, 0, 1 + i}, cfgSel{mode, 5, 1_699_999_000, 1, (i + 2) % 5},
-				cfgSel{mode, -1, 1_699_999_000, 172800, 4 - i})
+			cfgs = append(cfgs, cfgSel{mode, -1, 0, -1, 0, 0}, cfgSel{mode, 1, 1000, 0, 1 + i, 0}, cfgSel{mode, 5, 1_699_999_000, 1, (i + 2) % 5, 0},
+				cfgSel{mode, -1, 1_699_999_000, 172800, 4 - i, 0})
 		}
 		for j := 0; j < 6; j++ {
 			cfgs = append(cfgs, cfgSel{modes[rng.Intn(3)], []int{-1, 1, 5}[rng.Intn(3)], []int64{0, 1000, 1_699_999_000, 1_000_000_000 + int64(rng.Intn(700_000_000))}[rng.Intn(4)],
-				[]int{0, 1, -1, 60, 172800, 7}[rng.Intn(6)], rng.Intn(5)})
+				[]int{0, 1, -1, 60, 172800, 7}[rng.Intn(6)], rng.Intn(5), 0})
+		}
+	}
+	// option combinations: the implicit startNumber (snr_-1 = DASH default 1) in every mode, and init_<s> (which concerns the
+	// init segment only) together with offsets up to infinite - media segments are still never served before the start
+	for i, mode := range modes {
+		cfgs = append(cfgs, cfgSel{mode, tl.SNRImplicit, []int64{0, 1000, 1_699_999_000}[i], []int{-1, 1, 10}[i], i, 0},
+			cfgSel{mode, []int{-1, 1, tl.SNRImplicit}[i], 1_699_999_000, -1, []int{4, 3, 1}[i], 10})
+	}
+	if *thorough {
+		for _, mode := range modes {
+			for ak := 0; ak < 5; ak++ {
+				cfgs = append(cfgs, cfgSel{mode, tl.SNRImplicit, 1_699_999_000, 1, ak, 0}, cfgSel{mode, 1, 1000, 0, ak, 3 + ak})
+			}
 		}
 	}
 
 	type job struct {
-		a   *tl.Asset
-		rt  *project.RepTruth // the representation whose timeline decides availability (video for audio requests)
-		cs  cfgSel
-		sd  int64
-		au  *project.RepTruth // non-nil: the requests are for this audio representation
+		a  *tl.Asset
+		rt *project.RepTruth // the representation whose timeline decides availability (video for audio requests)
+		cs cfgSel
+		sd int64
+		au *project.RepTruth // non-nil: the requests are for this audio representation
 	}
 	var jobs []job
 	for _, a := range env.Assets {
@@ -176,6 +190,9 @@ func Main(args []string) error {
 			ato = 1
 		}
 		c := tl.Cfg{Mode: cs.mode, SNR: cs.snr, AST: cs.ast, TSBD: cs.tsbd, AtoMS: ato}
+		if cs.initS > 0 {
+			c.Extra = append(c.Extra, fmt.Sprintf("init_%d", cs.initS))
+		}
 		var extra tr.E
 		if j.au != nil {
 			// the audio segment ends up to one frame after the video segment: in that slack either answer is accepted
@@ -205,6 +222,11 @@ func Main(args []string) error {
 				}
 			}
 			inst[av+tsbdMS+11_000] = true
+			if cs.initS > 0 { // before the start, inside and outside the init_<s> lead
+				for _, d := range []int64{-int64(cs.initS)*1000 - 500, -int64(cs.initS)*1000 + 1, -int64(cs.initS) * 500, -100} {
+					inst[d] = true
+				}
+			}
 			inst[av+tsbdMS+3_600_000] = true
 			for j := 0; j < 4; j++ {
 				inst[av-int64(rng.Intn(int(segMS)+1))] = true
